@@ -29,7 +29,15 @@ class Lits:
         self.ids: dict[bytes, int] = {}
 
     def of(self, proto) -> int:
-        b = proto.SerializeToString(deterministic=True)
+        # the payload is the tensor without its name (renaming touches the name only)
+        q = type(proto)()
+        q.CopyFrom(proto)
+        if isinstance(q, onnx.SparseTensorProto):
+            q.values.name = ""
+            q.indices.name = ""
+        else:
+            q.name = ""
+        b = q.SerializeToString(deterministic=True)
         if b not in self.ids:
             self.ids[b] = len(self.ids)
         return self.ids[b]
